@@ -92,10 +92,21 @@ def replace_callables_and_configs_with_symbols(
               " value to the field first or removing field tags from your"
               " config, for example using `fdl.clear_tags`."
           )
-        value.__arguments__[arg] = code_ir.WithTagsCall(
-            tag_symbol_expressions=tag_expr,
-            item_to_tag=value.__arguments__[arg],
-        )
+        # Outside of auto_config, `auto_config.with_tags(value, tags)` would
+        # just return `value` (and `auto_config` is not imported by this
+        # generator); `Tag.new(value)` creates the tagged value instead.
+        del tag_expr
+        tagged_value = value.__arguments__[arg]
+        for tag in sorted(arg_tags, key=repr, reverse=True):
+          tagged_value = code_ir.SymbolOrFixtureCall(
+              symbol_expression=code_ir.AttributeExpression(
+                  base=import_manager_wrapper.add(tag, task.import_manager),
+                  attribute="new",
+              ),
+              positional_arg_expressions=[tagged_value],
+              arg_expressions={},
+          )
+        value.__arguments__[arg] = tagged_value
       return code_ir.SymbolOrFixtureCall(
           symbol_expression=ir_for_buildable_type,
           positional_arg_expressions=[ir_for_symbol],
